@@ -71,7 +71,23 @@ def simple_models_job(job) -> dict:
         pix = np.array([[rng.choice([0, 1, 7, 50000, 2 ** 20]) for _ in range(4)] for _ in range(3)], dtype=float)
         chg = np.array([[rng.choice([0, 0, 3, 999, 2 ** 16]) for _ in range(4)] for _ in range(3)], dtype=float)
         det.pixel.array = pix.copy()
-        det.charge.add_charge_array(chg.copy())
+        how = job["seed"] % 3          # generated charge held as an array, as positioned packets, or both
+        if how in (1, 2):
+            geo = det.geometry
+            part = chg.copy() if how == 1 else np.floor(chg / 2.0)
+            ys, xs = np.mgrid[0:3, 0:4]
+            sel = part.ravel() > 0
+            z = np.zeros(int(sel.sum()))
+            if sel.any():
+                det.charge.add_charge(
+                    particle_type="e", particles_per_cluster=part.ravel()[sel].astype(float), init_energy=z,
+                    init_ver_position=(ys.ravel()[sel] + 0.5) * geo.pixel_vert_size,
+                    init_hor_position=(xs.ravel()[sel] + 0.5) * geo.pixel_horz_size,
+                    init_z_position=z, init_ver_velocity=z, init_hor_velocity=z, init_z_velocity=z)
+            if how == 2:
+                det.charge.add_charge_array(chg - part)
+        else:
+            det.charge.add_charge_array(chg.copy())
         simple_collection(det)
         for y in range(3):
             for x in range(4):
